@@ -461,6 +461,11 @@ func (c14) Run(c *Ctx, i int) CaseResult {
 			res.Features = append(res.Features, "roundtrip")
 		}
 	}
+	if len(res.Fails) == 0 && i%2 == 0 {
+		// introspection arguments through variables, answered from one reused plan for changing values
+		ts := reuseTemplatesFor("introspection-variable-name", "introspection-include-deprecated", "optional-variable-on-gateway-field")
+		res.Fails = append(res.Fails, ReuseCheck(c, c.Rand(i+83000000), ts[(i/2)%len(ts)], "L0.intro-reuse")...)
+	}
 	if i%53 == 0 || i < 3 {
 		res.Sample = map[string]interface{}{"query": query, "variables": vars, "services": nsvc}
 	}
